@@ -21,6 +21,7 @@ class AdtSpec:
         self.ctors = ctors
         self.tag_attr = tag_attr
         self.ignored = set(ignored)     # attributes left out of the model (see DESIGN 2.2)
+        self.derived = {}               # attribute -> function(z3 expr) -> (z3 expr, kind): computed attributes
         self.sort = None
 
     def ctor(self, name):
@@ -122,6 +123,8 @@ class Sorts:
         if kind[0] == 'map':
             # finite map: array into an option type, absent keys are none
             return z3.ArraySort(self.sort_of(kind[1]), self.opt_sort(kind[2]))
+        if kind[0] == 'arr':
+            return z3.ArraySort(self.sort_of(kind[1]), self.sort_of(kind[2]))     # total function
         if kind[0] == 'opt':
             return self.opt_sort(kind[1])
         if kind[0] == 'tuple':
